@@ -720,6 +720,9 @@ def rule_update_order(prog):
         out.missing("AnalyzedSource::update")
         return out
     b = bs[0]
+    # (small helpers of the step - `change.apply_to(&mut acc.text)` - are read in place; the lexer, the parser and the table are not)
+    b = dict(b, body=hir.simplify(hir.inline_calls(prog, b["body"], c, depth=2, only=lambda hb: not hb["p"].startswith(
+        ("spl_frontend::lexer", "spl_frontend::parser", "spl_frontend::table", "spl_frontend::tokens")) and hb["d"] != "AnalyzedSource::update")))
     blk = None
     for cand in (x for x in hir.nodes_deep(prog, b["body"], 2) if x.get("k") == "Block"):
         direct = cand["stmts"] + ([cand["expr"]] if cand.get("expr") else [])
@@ -773,6 +776,14 @@ def rule_update_order(prog):
                 if len(bs_) == 2:
                     tc_bind = "%s#%s" % (bs_[1]["name"], bs_[1]["id"])
         nw = [n for n in hir.nodes(par[0], "Call") if (hir.callee_display(n) or "").endswith("new_with_change")]
+        if not nw:
+            # the stream is bound to a local first: `let stream = TokenStream::new_with_change(..); parser::update(ast, stream)`
+            for a_ in par[0]["args"]:
+                pl_ = hir.path_local(hir.strip_ref(hir.strip(a_)))
+                if pl_:
+                    for l in hir.nodes(blk, "Let"):
+                        if l["pat"].get("k") == "Binding" and l["pat"]["id"] == pl_["id"] and l.get("init") is not None:
+                            nw += [n for n in hir.nodes(l["init"], "Call") if (hir.callee_display(n) or "").endswith("new_with_change")]
         toks_arg = place(hir.strip_ref(hir.strip(nw[0]["args"][0]))) or "" if nw else ""
         text_arg = place(hir.strip_ref(hir.strip(lex[0]["args"][0]))) or ""
         edited = place(hir.strip_ref(hir.strip(rep[0]["recv"]))) or ""
@@ -1003,6 +1014,11 @@ def rule_strip_rebuild(prog):
                 if cond.get("k") == "MethodCall" and cond["m"] == "is_empty" and "TextChange" in c.tstr(cond["recv"]["t"]) + "".join(
                         c.tstr(a["to"]) for a in cond["recv"].get("adj") or []):
                     if any(True for _ in hir.nodes(n["then"], "Ret")):
+                        guard = True
+                    # `if changes.is_empty() { self } else { <re-parse and re-analyse> }`: the branch of the empty list calls nothing
+                    elif n.get("else") is not None and not any(is_call(x_, append_ps) or x_.get("k") in ("Call", "MethodCall")
+                                                               for x_ in hir.nodes(n["then"])) and \
+                            any(is_call(x_, append_ps) for x_ in hir.nodes_deep(prog, n["else"], 2, crate=c)):
                         guard = True
             out.add("AnalyzedSource::update", "an empty change list does not reach the re-analysis", guard, c.loc(b["sp"]),
                     "the per-change step (the only place that strips old build/semantic diagnostics) runs zero times for an empty "
